@@ -1,5 +1,6 @@
 #include <nano/function/penalty.h>
 #include <nano/solver/augmented.h>
+#include <nano/verif.h>
 
 using namespace nano;
 
@@ -79,6 +80,9 @@ solver_state_t solver_augmented_lagrangian_t::do_minimize(const function_t& func
         const auto iter_ok   = cstate.valid();
         const auto criterion = make_criterion(cstate, miu, ro);
         const auto converged = iter_ok && criterion <= epsilon && ::nano::converged(bstate, cstate, epsilon);
+        NANO_VERIF_TRACE("augmented.outer", outer, ro, epsilon, iter_ok, criterion, old_criterion, converged,
+                         ::nano::converged(bstate, cstate, epsilon), lambda, miu, cstate.x(), cstate.ceq(),
+                         cstate.cineq(), bstate.x(), bstate.ceq(), bstate.cineq());
         if (iter_ok && criterion < old_criterion)
         {
             bstate.update(cstate.x(), lambda, miu);
@@ -102,5 +106,6 @@ solver_state_t solver_augmented_lagrangian_t::do_minimize(const function_t& func
         miu.array()    = (miu.array() + old_ro * cstate.cineq().array()).max(0.0).min(miu_max);
     }
 
+    NANO_VERIF_TRACE("augmented.return", bstate.status(), bstate.x(), bstate.ceq(), bstate.cineq(), bstate.fx());
     return bstate;
 }
